@@ -292,7 +292,7 @@ theorem ordWF_step (s s' : State) (e : Ev) (h : next s e = some s') (hcalm : cal
   | taskSet k => simp only [next] at h; cases h; exact ⟨o1, o2, o3, o4⟩
   | taskClear self =>
     cases self
-    · simp only [next] at h; cases h; exact ⟨o1, o2, o3, o4⟩
+    · simp only [next] at h; split at h <;> cases h <;> exact ⟨o1, o2, o3, o4⟩
     · simp [calmStep] at hcalm
 
 end OPM.Runner
